@@ -23,10 +23,23 @@
     * `parse_to_str_u`, `parse_to_str_i`
     * `fmt_triple_spec`, `format_spec`   what each `fmt` impl hands to `Formatter::pad_integral`
     * `oracle_digits_eq`, `oracle_radix_eq`, `oracle_str_eq`   the driver's run-time oracle IS this spec
-  Nothing is `_partial`.  Modelled, not proved: `pad_integral` itself (std), `from_utf8` (std);
-  value level (Nat): `div_rem_digit`, `div_rem`, BigUint squaring inside `to_radix_digits_le`.
+  Nothing is `_partial`.  Modelled, not proved: `pad_integral` itself (std), `from_utf8` (std).
+
+  LAYER LINK (section "digit-level general-radix output" at the end).  NB.Model.Radix writes the BigUint
+  operators inside `to_radix_digits_le` (`div_rem_digit`, `digits.div_rem(&big_base)`, `&big_base * &big_base`,
+  `digits > big_base`, `data.len()`) at value level.  NB.Model.RadixD is the same function on digit vectors
+  with those operators replaced by the digit-level models `NB.divRemDigit`, `NB.divRemRef` (Knuth D),
+  `NB.Mul.mulRef` (mac3), `NB.cmpSlice`, `List.length`; the driver's model column runs THAT definition.
+    * `to_radix_digits_le_refines`, `to_radix_le_refines`   digit level = value level on canonical operands,
+      for every `P` with `P.ValidMul` (C02's hypothesis; obligation `gen_params_valid_mul`)
+    * `to_radix_leD_spec/_outcome`, `to_radix_beD_spec`, `bigint_to_radixD_spec`, `big_chunkD_spec`,
+      `from_to_radixD`, `to_from_radixD`, `to_strD_spec`, `bigint_to_strD_spec`, `to_strD_outcome`,
+      `parse_to_strD_u/i`, `fmt_tripleD_spec`, `formatD_spec`: the theorems above, about the digit-level model
+    * `to_radixD_no_internal`: no operator panic / assertion / fuel exhaustion is reachable
+    * `gen_to_radix_leD_spec`, `gen_to_strD_spec`, `gen_formatD_spec`: instantiated at the generated parameters (what the driver runs)
 -/
 import NB.Lemmas.RadixText
+import NB.Lemmas.RadixD
 import NB.Lemmas.AddSub
 import NB.Model.AsmParams
 import NB.Drv.C06
@@ -791,6 +804,187 @@ theorem oracle_str_eq (r n : Nat) (h2 : 2 ≤ r) (h36 : r ≤ 36) (neg : Bool) :
     rw [oracle_digits_eq r h2, List.append_nil, List.map_reverse]
     congr 3
 
+/-! ### digit-level general-radix output (layer link to C02 / C03)
+
+`toRadixDigitsLeD` & co. (NB.Model.RadixD) mirror `to_radix_digits_le` on digit vectors: `div_rem_digit`,
+`digits.div_rem(&big_base)` (`div_rem_ref`, Knuth D), `&big_base * &big_base` (`mulRef`, mac3), `digits > big_base`
+(`cmp_slice`) are the digit-level models whose exactness is C02 / C03.  The refinement theorems say that on canonical
+operands they compute exactly what the value-level model computes; everything above transfers. -/
+
+/-- refinement, inner function: for the radices it is called with (2..=256, not a power of two) -/
+theorem to_radix_digits_le_refines (P : Params) (hP : P.ValidMul) (u : List Nat) (hc : Canon u) (r : Nat)
+    (h2 : 2 ≤ r) (h256 : r ≤ 256) (hp : isPow2 r = false) :
+    toRadixDigitsLeD P u r = toRadixDigitsLe P u r :=
+  toRadixDigitsLeD_eq P hP h2 h256 hp u hc
+
+/-- refinement, public functions: EVERY radix (in range or not), every canonical value -/
+theorem to_radix_le_refines (P : Params) (hP : P.ValidMul) (u : List Nat) (hc : Canon u) (r : Nat) :
+    toRadixLeD P u r = toRadixLe P u r ∧ toRadixBeD P u r = toRadixBe P u r ∧
+    toStrRadixUD P u r = toStrRadixU P u r :=
+  ⟨toRadixLeD_eq P hP u hc r, toRadixBeD_eq P hP u hc r, toStrRadixUD_eq P hP u hc r⟩
+
+theorem bigint_to_radix_refines (P : Params) (hP : P.ValidMul) (x : BigInt) (hc : x.Canon) (r : Nat) :
+    Radix.BigInt.toRadixLeD P x r = Radix.BigInt.toRadixLe P x r ∧
+    Radix.BigInt.toRadixBeD P x r = Radix.BigInt.toRadixBe P x r ∧
+    toStrRadixID P x r = toStrRadixI P x r :=
+  ⟨(bigint_toRadixLeD_eq P hP x hc.1 r).1, (bigint_toRadixLeD_eq P hP x hc.1 r).2, toStrRadixID_eq P hP x hc.1 r⟩
+
+theorem format_refines (P : Params) (hP : P.ValidMul) (k : FmtKind) (f : FmtSpec) (x : BigInt) (hc : x.Canon) :
+    fmtTripleD P k x = fmtTriple P k x ∧ formatD P k f x = format P k f x :=
+  ⟨fmtTripleD_eq P hP k x hc.1, formatD_eq P hP k f x hc.1⟩
+
+/-- the digit-level loops, separately (any base `≥ 2`, any fuel bounding the bit length): the `div_rem_digit`
+    loop and the final-digit loop … -/
+theorem slow_loop_refines (radix power base : Nat) (hb : 2 ≤ base) (fuel : Nat) (digits : List Nat)
+    (hc : Canon digits) (hf : val digits < 2 ^ fuel) :
+    slowLoopD radix power base fuel digits = slowLoop radix power base (val digits) :=
+  slowLoopD_eq hb fuel digits hc hf
+
+/-- … the squaring loop (`mulRef` per iteration) … -/
+theorem square_loop_refines (P : Params) (hP : P.ValidMul) (t fuel : Nat) (bb : List Nat) (bp : Nat) (hc : Canon bb) :
+    squareLoopD P t fuel bb bp = (squareLoop t fuel (val bb) bp).map (fun p => (ofNat p.1, p.2)) :=
+  squareLoopD_eq P hP t fuel bb bp hc
+
+/-- … and the super-chunk loop (`cmp_slice`, `div_rem_ref`, `big_power` × `div_rem_digit`) -/
+theorem big_loop_refines (P : Params) (radix power base bigPower : Nat) (bigBase : List Nat) (hb : 2 ≤ base)
+    (hbb : Canon bigBase) (hbb2 : 2 ≤ val bigBase) (fuel : Nat) (digits : List Nat)
+    (hc : Canon digits) (hf : val digits < 2 ^ fuel) :
+    bigLoopD P radix power base bigBase bigPower fuel digits
+      = bigLoop radix power base (val bigBase) bigPower (val digits) :=
+  bigLoopD_eq P hb hbb hbb2 fuel digits hc hf
+
+/-- the fuel the model passes, `BITS * u.len()`, always bounds the bit length (termination of both loops) -/
+theorem radix_fuel_sufficient (u : List Nat) (hd : DigitsOk u) : val u < 2 ^ radixFuel u :=
+  val_lt_radixFuel hd
+
+/-- `to_radix_le` at digit level: the unique positional representation, on every code path -/
+theorem to_radix_leD_spec (P : Params) (hP : P.ValidMul) (u : List Nat) (hc : Canon u) (r : Nat)
+    (h2 : 2 ≤ r) (h256 : r ≤ 256) :
+    toRadixLeD P u r = .ok (digitsOr0 r (val u)) := by
+  rw [toRadixLeD_eq P hP u hc r]; exact to_radix_le_spec P u hc r h2 h256
+
+theorem to_radix_beD_spec (P : Params) (hP : P.ValidMul) (u : List Nat) (hc : Canon u) (r : Nat)
+    (h2 : 2 ≤ r) (h256 : r ≤ 256) :
+    toRadixBeD P u r = .ok (digitsOr0 r (val u)).reverse := by
+  rw [toRadixBeD_eq P hP u hc r]; exact to_radix_be_spec P u hc r h2 h256
+
+/-- complete outcome table at digit level: the positional digits, or `panic radix` — in particular no
+    `.divzero` (of `div_rem_digit` / `div_rem`), no internal assertion of `mac3` / `div_rem_core`, no `#DE` of
+    `div_wide`, no `digits.data[0]` out of bounds and no fuel exhaustion is reachable -/
+theorem to_radix_leD_outcome (P : Params) (hP : P.ValidMul) (u : List Nat) (hc : Canon u) (r : Nat) :
+    toRadixLeD P u r = if 2 ≤ r ∧ r ≤ 256 then .ok (digitsOr0 r (val u)) else .error .radix := by
+  rw [toRadixLeD_eq P hP u hc r]; exact to_radix_le_outcome P u hc r
+
+theorem to_radixD_no_internal (P : Params) (hP : P.ValidMul) (u : List Nat) (hc : Canon u) (r : Nat) (e : Panic) :
+    toRadixLeD P u r = .error e → e = .radix := by
+  rw [to_radix_leD_outcome P hP u hc r]
+  split
+  · intro h; cases h
+  · intro h; injection h with h; exact h.symm
+
+theorem bigint_to_radixD_spec (P : Params) (hP : P.ValidMul) (x : BigInt) (hc : x.Canon) (r : Nat)
+    (h2 : 2 ≤ r) (h256 : r ≤ 256) :
+    Radix.BigInt.toRadixLeD P x r = .ok (x.sign, digitsOr0 r x.val.natAbs) ∧
+    Radix.BigInt.toRadixBeD P x r = .ok (x.sign, (digitsOr0 r x.val.natAbs).reverse) := by
+  obtain ⟨e1, e2, _⟩ := bigint_to_radix_refines P hP x hc r
+  rw [e1, e2]; exact bigint_to_radix_le_spec P x hc r h2 h256
+
+/-- the big-base path at digit level: a super-chunk `big_r` (any digit vector with value below `base^big_power`)
+    is emitted by `big_power` calls of `div_rem_digit` as exactly `big_power * power` zero-padded digits -/
+theorem big_chunkD_spec (r power bigPower : Nat) (bigR : List Nat) (hd : DigitsOk bigR) (h2 : 2 ≤ r) (h256 : r ≤ 256)
+    (hlt : val bigR < (r ^ power) ^ bigPower) :
+    emitChunksD r power (r ^ power) bigPower bigR
+      = .ok (Nat.digits r (val bigR) ++ List.replicate (bigPower * power - (Nat.digits r (val bigR)).length) 0) := by
+  have hb0 : r ^ power ≠ 0 := Nat.pos_iff_ne_zero.1 (Nat.pow_pos (by omega))
+  rw [emitChunksD_eq hb0 bigPower bigR hd, (big_chunk_spec r power bigPower (val bigR) h2 h256 hlt).1]
+
+/-- round trips through the digit-level output -/
+theorem from_to_radixD (P : Params) (hP : P.ValidMul) (u : List Nat) (hc : Canon u) (r : Nat) (h2 : 2 ≤ r) (h256 : r ≤ 256) :
+    ∃ ds, toRadixLeD P u r = .ok ds ∧ fromRadixLe ds r = .ok (some u) ∧ fromRadixBe ds.reverse r = .ok (some u) := by
+  rw [toRadixLeD_eq P hP u hc r]; exact from_to_radix P u hc r h2 h256
+
+theorem to_from_radixD (P : Params) (hP : P.ValidMul) (ds : List Nat) (r : Nat) (h2 : 2 ≤ r) (h256 : r ≤ 256)
+    (hd : ∀ d ∈ ds, d < r) (hne : ds ≠ []) (hlast : ds.getLast? ≠ some 0) :
+    ∃ u, fromRadixLe ds r = .ok (some u) ∧ Canon u ∧ toRadixLeD P u r = .ok ds := by
+  obtain ⟨u, e1, hcu, e2⟩ := to_from_radix P ds r h2 h256 hd hne hlast
+  exact ⟨u, e1, hcu, by rw [toRadixLeD_eq P hP u hcu r]; exact e2⟩
+
+/-- `to_str_radix` at digit level -/
+theorem to_strD_spec (P : Params) (hP : P.ValidMul) (u : List Nat) (hc : Canon u) (r : Nat) (h2 : 2 ≤ r) (h36 : r ≤ 36) :
+    toStrRadixUD P u r = .ok (textOf r (val u)) := by
+  rw [toStrRadixUD_eq P hP u hc r]; exact to_str_spec P u hc r h2 h36
+
+theorem bigint_to_strD_spec (P : Params) (hP : P.ValidMul) (x : BigInt) (hc : x.Canon) (r : Nat) (h2 : 2 ≤ r) (h36 : r ≤ 36) :
+    toStrRadixID P x r = .ok ((if x.sign = .minus then [45] else []) ++ textOf r (val x.mag)) := by
+  rw [toStrRadixID_eq P hP x hc.1 r]; exact bigint_to_str_spec P x hc r h2 h36
+
+theorem to_strD_outcome (P : Params) (hP : P.ValidMul) (x : BigInt) (hc : x.Canon) (r : Nat) :
+    toStrRadixID P x r = if 2 ≤ r ∧ r ≤ 36
+      then .ok ((if x.sign = .minus then [45] else []) ++ textOf r (val x.mag)) else .error .radix := by
+  rw [toStrRadixID_eq P hP x hc.1 r]; exact to_str_outcome P x hc r
+
+/-- parsing the text emitted by the digit-level model returns the original value -/
+theorem parse_to_strD_u (P : Params) (hP : P.ValidMul) (u : List Nat) (hc : Canon u) (r : Nat) (h2 : 2 ≤ r) (h36 : r ≤ 36) :
+    ∃ s, toStrRadixUD P u r = .ok s ∧ fromStrRadixU s r = .ok (.ok u) ∧ parseBytesU s r = .ok (some u) := by
+  rw [toStrRadixUD_eq P hP u hc r]; exact parse_to_str_u P u hc r h2 h36
+
+theorem parse_to_strD_i (P : Params) (hP : P.ValidMul) (x : BigInt) (hc : x.Canon) (r : Nat) (h2 : 2 ≤ r) (h36 : r ≤ 36) :
+    ∃ s, toStrRadixID P x r = .ok s ∧ fromStrRadixI s r = .ok (.ok x) ∧ parseBytesI s r = .ok (some x) := by
+  rw [toStrRadixID_eq P hP x hc.1 r]; exact parse_to_str_i P x hc r h2 h36
+
+/-- formatting at digit level -/
+theorem fmt_tripleD_spec (P : Params) (hP : P.ValidMul) (k : FmtKind) (x : BigInt) (hc : x.Canon) :
+    fmtTripleD P k x = .ok (decide (x.sign ≠ .minus), fmtPrefix k,
+      if k = .upperHex then (textOf (fmtRadix k) (val x.mag)).map asciiUpper else textOf (fmtRadix k) (val x.mag)) := by
+  rw [fmtTripleD_eq P hP k x hc.1]; exact fmt_triple_spec P k x hc
+
+theorem formatD_spec (P : Params) (hP : P.ValidMul) (k : FmtKind) (f : FmtSpec) (x : BigInt) (hc : x.Canon) :
+    formatD P k f x = .ok (padIntegral f (decide (x.sign ≠ .minus)) (fmtPrefix k)
+      (if k = .upperHex then (textOf (fmtRadix k) (val x.mag)).map asciiUpper else textOf (fmtRadix k) (val x.mag))) := by
+  rw [formatD_eq P hP k f x hc.1]; exact format_spec P k f x hc
+
+/-- what the driver runs: the digit-level model at the parameters regenerated from the source
+    (`gen_params_valid_mul` is C02's proof obligation, re-elaborated on every run) -/
+theorem gen_to_radix_leD_spec (u : List Nat) (hc : Canon u) (r : Nat) :
+    toRadixLeD NB.Gen.P u r = if 2 ≤ r ∧ r ≤ 256 then .ok (digitsOr0 r (val u)) else .error .radix :=
+  to_radix_leD_outcome NB.Gen.P gen_params_valid_mul u hc r
+
+theorem gen_to_strD_spec (x : BigInt) (hc : x.Canon) (r : Nat) :
+    toStrRadixID NB.Gen.P x r = if 2 ≤ r ∧ r ≤ 36
+      then .ok ((if x.sign = .minus then [45] else []) ++ textOf r (val x.mag)) else .error .radix :=
+  to_strD_outcome NB.Gen.P gen_params_valid_mul x hc r
+
+theorem gen_formatD_spec (k : FmtKind) (f : FmtSpec) (x : BigInt) (hc : x.Canon) :
+    formatD NB.Gen.P k f x = .ok (padIntegral f (decide (x.sign ≠ .minus)) (fmtPrefix k)
+      (if k = .upperHex then (textOf (fmtRadix k) (val x.mag)).map asciiUpper else textOf (fmtRadix k) (val x.mag))) :=
+  formatD_spec NB.Gen.P gen_params_valid_mul k f x hc
+
+
+/-- the driver's model column for the general-radix output ops (NB.Drv.C06.mToRadixLe & co.) is the digit-level
+    definition whenever the size cap `dCap` is off (`0`, the delivered setting) or not exceeded … -/
+theorem drv_model_is_digit_level (a : List Nat) (r : Nat) (k : FmtKind) (f : FmtSpec) (x : BigInt)
+    (ha : NB.Drv.C06.dCap = 0 ∨ a.length ≤ NB.Drv.C06.dCap) (hx : NB.Drv.C06.dCap = 0 ∨ x.mag.length ≤ NB.Drv.C06.dCap) :
+    NB.Drv.C06.mToRadixLe a r = toRadixLeD NB.Gen.P a r ∧ NB.Drv.C06.mToRadixBe a r = toRadixBeD NB.Gen.P a r ∧
+    NB.Drv.C06.mToStrU a r = toStrRadixUD NB.Gen.P a r ∧ NB.Drv.C06.mToStrI x r = toStrRadixID NB.Gen.P x r ∧
+    NB.Drv.C06.mToRadixLeI x r = Radix.BigInt.toRadixLeD NB.Gen.P x r ∧
+    NB.Drv.C06.mToRadixBeI x r = Radix.BigInt.toRadixBeD NB.Gen.P x r ∧
+    NB.Drv.C06.mFmt k f x = formatD NB.Gen.P k f x := by
+  have h1 : NB.Drv.C06.useD a = true := by
+    unfold NB.Drv.C06.useD; rcases ha with h | h <;> simp [h]
+  have h2 : NB.Drv.C06.useD x.mag = true := by
+    unfold NB.Drv.C06.useD; rcases hx with h | h <;> simp [h]
+  unfold NB.Drv.C06.mToRadixLe NB.Drv.C06.mToRadixBe NB.Drv.C06.mToStrU NB.Drv.C06.mToStrI
+    NB.Drv.C06.mToRadixLeI NB.Drv.C06.mToRadixBeI NB.Drv.C06.mFmt NB.Drv.C06.P
+  simp only [h1, h2, if_true, and_self]
+
+/-- … and in either case it equals the specification (so a cap could never mask a model error) -/
+theorem drv_model_column_spec (u : List Nat) (hc : Canon u) (r : Nat) :
+    NB.Drv.C06.mToRadixLe u r = if 2 ≤ r ∧ r ≤ 256 then .ok (digitsOr0 r (val u)) else .error .radix := by
+  unfold NB.Drv.C06.mToRadixLe NB.Drv.C06.P
+  split
+  · exact gen_to_radix_leD_spec u hc r
+  · exact to_radix_le_outcome _ u hc r
+
 /-! ### the extracted parameters; non-vacuity -/
 
 /-- the theorems above hold for every value of the extracted big-base threshold; this records the value
@@ -798,6 +992,12 @@ theorem oracle_str_eq (r n : Nat) (h2 : 2 ≤ r) (h36 : r ≤ 36) (neg : Bool) :
 theorem gen_params_bigbase : NB.Gen.P.bigBase = NB.Gen.bigBase := rfl
 
 example : Canon [B - 1, 1] ∧ Canon [1] := by decide
+/-- the hypotheses of the digit-level theorems are satisfiable, also on the big-base path (`u.len() ≥ P.bigBase`) -/
+example : NB.Gen.P.ValidMul ∧ Canon (List.replicate 70 7) ∧ NB.Gen.P.bigBase ≤ (List.replicate 70 7).length := by decide
+example : toRadixLeD NB.Gen.P (List.replicate 70 7) 10 = .ok (digitsOr0 10 (val (List.replicate 70 7))) :=
+  to_radix_leD_spec NB.Gen.P gen_params_valid_mul _ (by decide) 10 (by decide) (by decide)
+example : toStrRadixUD NB.Gen.P [B - 1, 1] 36 = .ok (textOf 36 (val [B - 1, 1])) :=
+  to_strD_spec NB.Gen.P gen_params_valid_mul _ (by decide) 36 (by decide) (by decide)
 example : Spec.wellFormedI 16 [45, 70, 95, 102] = true ∧ Spec.denoteInt 16 [45, 70, 95, 102] = -255 := by decide
 example : Spec.wellFormedU 10 [43, 48, 48, 55] = true ∧ Spec.wellFormedU 10 [45, 55] = false
     ∧ Spec.wellFormedU 10 [95, 55] = false ∧ Spec.wellFormedI 10 [43, 45, 55] = false := by decide
